@@ -24,6 +24,8 @@ theorem subscribe_wrapper_is_the_source : RoGen.Kernel.subscribeWrapper = Expect
 
 theorem collect_wrapper_is_the_source : RoGen.Kernel.collectWrapper = Expected.collectWrapper := by decide
 
+theorem subscriber_ctor_is_the_source : RoGen.Kernel.subscriberCtor = Expected.subscriberCtor := by decide
+
 /-- hence the interpreter runs the regenerated programs -/
 theorem progs_eq : lookup RoGen.Kernel.table = Expected.progs := by
   rw [progs_are_the_source]; rfl
